@@ -19,12 +19,17 @@ def noOpCastCheck (xDtype : Option Nat) (to : Nat) : Bool := xDtype == some to
 /-- `CastCast._allowed_type2_type3`. -/
 def castCastAllowed : List (Nat × Nat) := [(FLOAT, FLOAT16), (FLOAT, BFLOAT16)]
 
-/-- `CastCast.check`; the replacement is `Cast(x, to = type3)`. -/
-def castCastCheck (type2 type3 : Nat) : Bool := castCastAllowed.contains (type2, type3)
+/-- `CastCast.check` before commit e86ba81 (finding C05-N7, fixed): only the (type2, type3) table. -/
+def castCastCheckPrefix (type2 type3 : Nat) : Bool := castCastAllowed.contains (type2, type3)
 
-/-- Source types whose every value is exactly representable in FLOAT (so the first hop loses nothing):
-FLOAT, FLOAT16, BFLOAT16, (U)INT8, (U)INT16, BOOL. -/
+/-- `CastCast._exact_in_float`: source types whose every value is exactly representable in FLOAT (so the first hop loses
+nothing): FLOAT, FLOAT16, BFLOAT16, (U)INT8, (U)INT16, BOOL. -/
 def exactInFloat : List Nat := [1, 10, 16, 2, 3, 4, 5, 9]
+
+/-- `CastCast.check` as it is now: `x.dtype` (known) is exactly representable in FLOAT, then the (type2, type3) table;
+the replacement is `Cast(x, to = type3)`. -/
+def castCastCheck (xDtype : Option Nat) (type2 type3 : Nat) : Bool :=
+  (match xDtype with | some t => exactInFloat.contains t | none => false) && castCastAllowed.contains (type2, type3)
 
 /-- Round a natural number to `k` significant bits, ties to even — the integer core of an IEEE
 narrowing conversion (exponent range ignored). -/
@@ -231,6 +236,15 @@ def batchNormHyp (p : BatchNorm) : Bool := p.gemmBetaIsOne && !p.trainingMode
 def batchNormCheck (p : BatchNorm) : Bool := batchNormHyp p && batchNormCheckPrefix p
 
 /-! ## Expand before a broadcasting binary op — strategy 1 (constant target shape) -/
+
+/-- Commit dd5f7df (finding C05-N3c, fixed): no `ExpandFirst` rule is generated for PRelu (its slope broadcasts only towards X). -/
+def expandFirstRuleExists (op : String) : Bool := op != "PRelu"
+
+/-- `_BROADCAST_BINARY_OPS`: one `ExpandSecond_<op>` rule per entry and one `ExpandFirst_<op>` rule per entry except PRelu. -/
+def broadcastBinaryOps : List String :=
+  ["Add", "And", "BitShift", "BitwiseAnd", "BitwiseOr", "BitwiseXor", "Div", "Equal", "Greater", "GreaterOrEqual", "Less",
+   "LessOrEqual", "Mod", "Mul", "Or", "Pow", "PRelu", "Sub", "Xor"]
+
 
 /-- `_check_expand_removable`, strategy 1, **before commit 48b48d2** (no rank guard; finding C05-N3a, fixed).
 `x`, `y` shapes are annotations; `e` is the constant target. -/
